@@ -1,0 +1,62 @@
+//! C26 — public handle on the crate-private `HomeRelayWatch`.
+//!
+//! Connection states are small codes: 0 = Connecting, 1 = Connected,
+//! 2 = Disconnected without error, 3 = Disconnected with an error.
+//! The pause point `relay_actor.home_watch.between_get_set` lives in
+//! `HomeRelayWatch::set_status`.
+use std::sync::Arc;
+
+use iroh_base::RelayUrl;
+use n0_error::AnyError;
+
+use crate::{
+    endpoint::RelayStatus,
+    socket::transports::{HomeRelayWatch, RelayConnectionState},
+};
+
+fn state_of(code: u8) -> RelayConnectionState {
+    match code {
+        0 => RelayConnectionState::Connecting,
+        1 => RelayConnectionState::Connected,
+        2 => RelayConnectionState::Disconnected { last_error: None },
+        _ => RelayConnectionState::Disconnected {
+            last_error: Some(Arc::new(AnyError::from("verif"))),
+        },
+    }
+}
+
+/// A clonable handle on one `HomeRelayWatch` (clones share the watchable, as the
+/// `RelayActor` and its `ActiveRelayActor`s do).
+#[derive(Debug, Clone, Default)]
+pub struct Watch(HomeRelayWatch);
+
+impl Watch {
+    /// `HomeRelayWatch::set` (used by the `RelayActor` when the home relay changes).
+    pub fn set(&self, url: RelayUrl, state: u8) {
+        self.0.verif_set(url, state_of(state))
+    }
+    /// `HomeRelayWatch::clear`.
+    pub fn clear(&self) {
+        self.0.verif_clear()
+    }
+    /// `HomeRelayWatch::set_status` (used by an `ActiveRelayActor`).
+    pub fn set_status(&self, url: &RelayUrl, state: u8) {
+        self.0.verif_set_status(url, state_of(state))
+    }
+    /// Current value as `(url, state code)`.
+    pub fn get(&self) -> Option<(RelayUrl, u8)> {
+        self.0.verif_get().map(|st: RelayStatus| {
+            let url = st.url().clone();
+            let code = if st == RelayStatus::new(url.clone(), RelayConnectionState::Connecting) {
+                0
+            } else if st.is_connected() {
+                1
+            } else if st.last_error().is_none() {
+                2
+            } else {
+                3
+            };
+            (url, code)
+        })
+    }
+}
